@@ -79,3 +79,27 @@ def register(reg):
                                 f"arguments: {passed}"))
         res.append(("call-sites-found", n_calls >= 3, f"{n_calls} redirect-building call sites"))
         return res
+
+    @reg.static(P, "alias-redirect-values-include-rule-defaults")
+    def _alias():
+        """the argument dict handed to RequestAliasRedirect (from which the canonical URL is built) has the
+        alias rule's own defaults merged in: the merge statement dominates the raise in the same block"""
+        from pyvc.extract import ModuleInfo
+        fn = ModuleInfo.get("werkzeug/routing/matcher.py").classes["StateMachineMatcher"].methods["match"][-1]
+        res = []
+        found = False
+        for n in ast.walk(fn):
+            for fld in ("body", "orelse"):
+                seq = getattr(n, fld, None)
+                if not isinstance(seq, list):
+                    continue
+                for i, st in enumerate(seq):
+                    if isinstance(st, ast.If) and any(isinstance(x, ast.Raise) and "RequestAliasRedirect" in ast.unparse(x) for x in st.body):
+                        found = True
+                        before = [ast.unparse(s) for s in seq[:i]]
+                        merged = any("result.update(rule.defaults)" in b for b in before)
+                        res.append(("defaults-merged-before-alias-redirect", merged, f"statements before the raise: {before[-3:]}"))
+                        raise_src = [ast.unparse(x) for x in st.body if isinstance(x, ast.Raise)][0]
+                        res.append(("alias-redirect-carries-result-and-endpoint", raise_src == "raise RequestAliasRedirect(result, rule.endpoint)", raise_src))
+        res.append(("alias-redirect-site-found", found, "if rule.alias and rule.map.redirect_defaults: raise RequestAliasRedirect(...)"))
+        return res
